@@ -62,7 +62,7 @@ def rwCfg : RWCfg := StepModel.Generated.rwCfg
 
 def showCfg : String :=
   let b (x : Bool) := if x then "1" else "0"
-  s!"cfg stringNodeAppends={b rwCfg.stringNodeAppends} criSkipsComments={b rwCfg.criSkipsComments} " ++
+  s!"cfg stringNodeAppends={b rwCfg.stringNodeAppends} criSkipsComments={b lexCfg.criSkipsComments} " ++
   s!"aggrSkipsComments={b rwCfg.aggrSkipsComments} complexMergesParts={b rwCfg.complexMergesParts} " ++
   s!"complexPartStrict={match rwCfg.complexPartStrict with | none => "fwd" | some x => b x} " ++
   s!"recoveryKeepsSemicolon={b rwCfg.recoveryKeepsSemicolon} complexReportsError={b rwCfg.complexReportsError} " ++
